@@ -77,9 +77,9 @@ class Types:
         a = fi.node.args
         allp = a.posonlyargs + a.args + a.kwonlyargs
         for i, p in enumerate(allp):
-            if i == 0 and fi.cls is not None and fi.kind in ('method', 'property', 'setter') and p in (a.posonlyargs + a.args):
+            if i == 0 and fi.cls is not None and fi.outer is None and fi.kind in ('method', 'property', 'setter') and p in (a.posonlyargs + a.args):
                 env[p.arg] = {fi.cls}
-            elif i == 0 and fi.cls is not None and fi.kind == 'classmethod':
+            elif i == 0 and fi.cls is not None and fi.outer is None and fi.kind == 'classmethod':
                 env[p.arg] = {('classobj', fi.cls)}
             else:
                 env[p.arg] = self.ann_types(p.annotation, fi.module, fi.cls)
